@@ -184,7 +184,7 @@ def verify(ctx, table, ref, edges, P, sorted_on, monitor="conn", face_corners=No
         for (f, g), ans in zip(P["fpairs"], table["common_edge"]):
             sh = ref.shared_edges(f, g) if f != g else set()
             if sh:
-                if tuple(ans) not in sh:
+                if tuple(sorted(ans)) not in sh:
                     bad("common_edge", "wrong_answer", "common_edge(f,g) is not a shared edge", f=f, g=g, got=ans, want=sorted(sh))
                     break
             elif list(ans) != [None, None]:
